@@ -960,3 +960,117 @@ mutual
 end
 
 end Uft.Script.Hook
+
+/-! ## the argument buffer: every reader returns what the writer stored -/
+namespace Uft.Script.Args
+open Uft.Gen.ScriptArgs
+
+theorem alignUp_ge (n : Nat) : n ≤ alignUp n 4 := by unfold alignUp; omega
+
+theorem wrSize_ge_str (f : Fmt) (size slen : Nat) (h : isStr f = true) : slen + 2 ≤ wrSize f size slen := by
+  cases f <;> simp [isStr] at h <;> simp [wrSize] <;> exact alignUp_ge _
+
+theorem wrSize_ge_fixed (f : Fmt) (size slen : Nat) (h : isStr f = false) : size ≤ wrSize f size slen := by
+  cases f <;> simp [isStr] at h <;> simp [wrSize] <;> exact alignUp_ge _
+
+/-- the reader advances exactly as far as the writer did, for every format it has a case for -/
+structure Good (adv : Fmt → Nat → Nat → Option Nat) : Prop where
+  eq : ∀ f size slen a, (f = .chr → size = 1) → adv f size slen = some a → a = wrSize f size slen
+  total : ∀ f, handles adv f = true → ∀ size slen, (adv f size slen).isSome = true
+
+theorem padTo_length (n : Nat) (l : List Nat) (h : l.length ≤ n) : (padTo n l).length = n := by
+  simp [padTo]; omega
+
+theorem drop_padTo (n : Nat) (l tl : List Nat) (h : l.length ≤ n) : (padTo n l ++ tl).drop n = tl := by
+  have := padTo_length n l h
+  rw [List.drop_append_of_le_length (by omega)]
+  simp [List.drop_eq_nil_of_le, this]
+
+theorem take_padTo (n k : Nat) (l tl : List Nat) (hk : k ≤ l.length) : (padTo n l ++ tl).take k = l.take k := by
+  unfold padTo
+  rw [List.append_assoc, List.take_append_of_le_length hk]
+
+/-- one value: reading what was just written gives the value back and leaves the rest -/
+theorem decOne_encOne (adv : Fmt → Nat → Nat → Option Nat) (hg : Good adv) (sp : ASpec) (v : AVal)
+    (hf : fits sp v) (hh : handles adv sp.fmt = true) (tl : List Nat) :
+    decOne adv sp (encOne sp v ++ tl) = some (v, tl) := by
+  cases v with
+  | str s =>
+    have hs : isStr sp.fmt = true := hf
+    have hne : sp.fmt ≠ .chr := by intro e; rw [e] at hs; simp [isStr] at hs
+    have hge := wrSize_ge_str sp.fmt sp.size s.length hs
+    have h0 : (encOne sp (.str s) ++ tl).getD 0 0 = s.length % 256 := by simp [encOne, padTo]
+    have h1 : (encOne sp (.str s) ++ tl).getD 1 0 = s.length / 256 := by simp [encOne, padTo]
+    have hl : s.length % 256 + 256 * (s.length / 256) = s.length := Nat.mod_add_div _ _
+    obtain ⟨a, ha⟩ := Option.isSome_iff_exists.mp (hg.total sp.fmt hh sp.size s.length)
+    have hw := hg.eq sp.fmt sp.size s.length a (fun e => absurd e hne) ha
+    unfold decOne
+    simp only [hs, ↓reduceIte, h0, h1, hl, ha]
+    have hd : (encOne sp (.str s) ++ tl).drop a = tl := by
+      rw [hw]; exact drop_padTo _ _ _ (by simp; omega)
+    have ht : ((encOne sp (.str s) ++ tl).drop 2).take s.length = s := by
+      simp [encOne, padTo]
+    rw [hd, ht]
+  | fixed b =>
+    obtain ⟨hs, hlen, hc⟩ := hf
+    have hge := wrSize_ge_fixed sp.fmt sp.size 0 hs
+    obtain ⟨a, ha⟩ := Option.isSome_iff_exists.mp (hg.total sp.fmt hh sp.size 0)
+    have hw := hg.eq sp.fmt sp.size 0 a hc ha
+    have hr : readLen sp = b.length := by
+      unfold readLen
+      by_cases e : sp.fmt = .chr
+      · simp [e, hlen, hc e]
+      · simp [e, hlen]
+    unfold decOne
+    simp only [hs, Bool.false_eq_true, ↓reduceIte, ha]
+    have hd : (encOne sp (.fixed b) ++ tl).drop a = tl := by
+      rw [hw]; exact drop_padTo _ _ _ (by omega)
+    have ht : (encOne sp (.fixed b) ++ tl).take (readLen sp) = b := by
+      rw [hr]; simp only [encOne]
+      rw [take_padTo _ _ _ _ (Nat.le_refl _)]; simp
+    rw [hd, ht]
+
+/-- the whole list -/
+theorem decode_encode (adv : Fmt → Nat → Nat → Option Nat) (hg : Good adv) :
+    ∀ (sv : List (ASpec × AVal)) (tl : List Nat),
+      (∀ p ∈ sv, fits p.1 p.2 ∧ handles adv p.1.fmt = true) →
+      decode adv (sv.map (·.1)) (encode sv ++ tl) = sv.map (·.2)
+  | [], _, _ => rfl
+  | (sp, v) :: rest, tl, h => by
+    have h0 := h (sp, v) (List.mem_cons_self)
+    have ih := decode_encode adv hg rest tl (fun p hp => h p (List.mem_cons_of_mem _ hp))
+    simp only [List.map_cons, encode, decode, List.append_assoc]
+    rw [decOne_encOne adv hg sp v h0.1 h0.2]
+    simp only [ih]
+
+theorem good_replay : Good replayAdv where
+  eq := by
+    intro f size slen a hc h
+    cases f <;> simp [replayAdv] at h <;> subst h <;> simp [wrSize]
+    rw [hc rfl]
+  total := by
+    intro f _ size slen
+    cases f <;> simp [replayAdv]
+
+theorem good_python : Good pyAdv where
+  eq := by
+    intro f size slen a hc h
+    cases f <;> simp [pyAdv] at h <;> subst h <;> simp [wrSize]
+    rw [hc rfl]; simp [alignUp]
+  total := by
+    intro f hh size slen
+    cases f <;> simp_all [pyAdv, handles]
+
+theorem good_lua : Good luaAdv where
+  eq := by
+    intro f size slen a hc h
+    cases f <;> simp [luaAdv] at h <;> subst h <;> simp [wrSize]
+    rw [hc rfl]; simp [alignUp]
+  total := by
+    intro f hh size slen
+    cases f <;> simp_all [luaAdv, handles]
+
+theorem replay_handles_all (f : Fmt) : handles replayAdv f = true := by
+  cases f <;> simp [handles, replayAdv]
+
+end Uft.Script.Args
